@@ -361,6 +361,8 @@ def build_hyps(engine, pc, univ, idx0, apps0, sums, path=None, goal=None, rounds
         for b in range(a + 1, len(sums)):
             sum_lem += sums[a].pair_lemmas(sums[b], path)
     base += sum_lem
+    import os as _os
+    rounds = int(_os.environ.get('PYVC_ROUNDS', rounds))
     inst = []
     done = set()
     forced = list(getattr(path, 'hint_terms', {}).values()) if path is not None else []
